@@ -559,7 +559,13 @@ def register(S):
             if isinstance(x, Opaque) and x.kind == "slice_iter":
                 return x.get("n") is None
             if isinstance(x, Opaque) and x.kind == "map_iter":
-                return True
+                # a map whose whole contents are known is iterated entry by entry
+                try:
+                    m0 = ctx.ip.read_loc(ctx.st, x.get("map").loc)
+                except Exception:
+                    return True
+                return not (isinstance(m0, Opaque) and m0.kind == "btreemap" and m0.get("complete") and m0.get("keys") is not None
+                            and len(m0.get("keys")) == len(m0.get("cells")))
             if isinstance(x, AdtVal):
                 return not (isinstance(x.fields[0], IntVal) and x.fields[0].is_const() and isinstance(x.fields[1], IntVal) and x.fields[1].is_const())
             return False
